@@ -474,8 +474,11 @@ def _replace_tail_returns(block, make):
     if isinstance(last, ast.Return):
         return block[:-1] + make(last.value)
     if isinstance(last, ast.If):
-        last.body = _replace_tail_returns(last.body, make)
+        last.body = _replace_tail_returns(last.body, make) or [ast.copy_location(ast.Pass(), last)]
         last.orelse = _replace_tail_returns(last.orelse, make)
+        if all(isinstance(x, ast.Pass) for x in last.body) and last.orelse:
+            # `if c: <nothing> else: rest`  is  `if not c: rest`
+            last.test, last.body, last.orelse = nnf(last.test, True), last.orelse, []
         return block
     if isinstance(last, ast.Raise):
         return block
@@ -539,6 +542,47 @@ class _FoldConstantTests(ast.NodeTransformer):
         if v is None:
             return node
         return node.body if v else node.orelse
+
+
+def _relocate(stmts, base, before=False):
+    """Inlined statements keep the line of the call they replace, plus a fraction that preserves their order (rules compare
+    line numbers for "earlier / later"; reports show int(line)).  ``before``: the statements go in front of the call's line."""
+    flat = []
+
+    def rec(block):
+        for st in block:
+            flat.append(st)
+            for fld in ("body", "orelse", "finalbody"):
+                sub = getattr(st, fld, None)
+                if isinstance(sub, list) and sub and isinstance(sub[0], ast.stmt):
+                    rec(sub)
+            for h in getattr(st, "handlers", []) or []:
+                flat.append(h)
+                rec(h.body)
+    rec(stmts)
+    eps = 2.0 ** -10 if float(base).is_integer() else 2.0 ** -20
+    n = len(flat)
+    own = {}
+    for k, st in enumerate(flat):
+        own[id(st)] = (base - (n - k) * eps) if before else (base + (k + 1) * eps)
+    def paint(node, line):
+        for c in ast.iter_child_nodes(node):
+            if id(c) in own:
+                continue
+            if hasattr(c, "lineno") or isinstance(c, (ast.expr, ast.stmt)):
+                c.lineno = line
+                c.end_lineno = line
+            paint(c, line)
+    for st in flat:
+        st.lineno = own[id(st)]
+        st.end_lineno = own[id(st)]
+        paint(st, own[id(st)])
+    # compound statements end where their last inner statement ends
+    for st in reversed(flat):
+        inner = [x.end_lineno for x in ast.walk(st) if x is not st and hasattr(x, "end_lineno") and x.end_lineno is not None]
+        if inner:
+            st.end_lineno = max([st.end_lineno] + inner)
+    return stmts
 
 
 class _FlattenBoolOps(ast.NodeTransformer):
@@ -835,7 +879,7 @@ class Inliner:
                             make = lambda e: [ast.Return(value=e, lineno=stmt.lineno)]  # noqa: E731
                         new_body = _replace_tail_returns(new_body, make)
                         self.n += 1
-                        return [ast.copy_location(x, stmt) if not hasattr(x, "lineno") else x for x in prelude + new_body] or [ast.copy_location(ast.Pass(), stmt)]
+                        return _relocate(prelude + new_body, stmt.lineno) or [ast.copy_location(ast.Pass(), stmt)]
             return None
 
         def single_expr_helpers(node, is_test=False):
@@ -886,7 +930,11 @@ class Inliner:
                             return n
                         s2.changed += 1
                         self.n += 1
-                        return ast.copy_location(_Renamer(b[1]).visit(copy.deepcopy(body[0].value)), n)
+                        rep = _Renamer(b[1]).visit(copy.deepcopy(body[0].value))
+                        for x in ast.walk(rep):
+                            if hasattr(x, "lineno") or isinstance(x, ast.expr):
+                                x.lineno = x.end_lineno = n.lineno
+                        return rep
                     return n
             t = T()
             return t.visit(node)
@@ -924,7 +972,10 @@ class Inliner:
                     return s2.generic_visit(n)
             new_stmt = R().visit(stmt)
             self.n += 1
-            return [ast.copy_location(x, stmt) if not hasattr(x, "lineno") else x for x in prelude + pre] + [new_stmt]
+            for x in ast.walk(ret):
+                if hasattr(x, "lineno") or isinstance(x, ast.expr):
+                    x.lineno = x.end_lineno = stmt.lineno
+            return _relocate(prelude + pre, stmt.lineno, before=True) + [new_stmt]
 
         def walk_block(block):
             i = 0
